@@ -117,6 +117,20 @@ struct CtlInner {
     /// contention burst: see `Ctl::set_contention`
     contention: Option<Contention>,
     contention_seen: u64,
+    /// faults aimed at a kind of request: see `Ctl::set_match_faults`
+    match_faults: Vec<(FaultMatch, u64)>,
+}
+
+/// A fault aimed at the `nth` request (0-based) whose actor starts with `actor_prefix`, whose operation is `op`
+/// and whose path contains `path_contains` - e.g. the second catalog PUT of a compactor, whichever request index
+/// that turns out to be in a given schedule.
+#[derive(Clone, Debug)]
+pub struct FaultMatch {
+    pub actor_prefix: String,
+    pub op: String,
+    pub path_contains: String,
+    pub nth: u64,
+    pub mode: FaultMode,
 }
 
 /// A burst of lost compare-and-swap races: the conditional PUTs number `from .. from + count`
@@ -214,6 +228,9 @@ impl Ctl {
     }
     pub fn set_faults(&self, f: Vec<Fault>) {
         self.inner.lock().faults = f;
+    }
+    pub fn set_match_faults(&self, f: Vec<FaultMatch>) {
+        self.inner.lock().match_faults = f.into_iter().map(|m| (m, 0)).collect();
     }
     pub fn set_contention(&self, c: Option<Contention>) {
         let mut g = self.inner.lock();
@@ -329,7 +346,7 @@ impl Ctl {
             };
             let idx_global = g.global_count;
             g.global_count += 1;
-            let planned = g
+            let mut planned = g
                 .faults
                 .iter()
                 .find(|f| match &f.actor {
@@ -337,6 +354,14 @@ impl Ctl {
                     None => f.index == idx_global,
                 })
                 .map(|f| f.mode);
+            for (m, seen) in g.match_faults.iter_mut() {
+                if actor.starts_with(&m.actor_prefix) && op == m.op && path.contains(&m.path_contains) {
+                    if *seen == m.nth && planned.is_none() {
+                        planned = Some(m.mode);
+                    }
+                    *seen += 1;
+                }
+            }
             let seq = g.next_seq;
             g.next_seq += 1;
             g.events.push(Event {
